@@ -1,5 +1,6 @@
 import Model.Restore
 import Gen.ExecLoop
+import Gen.RunFields
 import Drv.Common
 open Restore Drv
 
@@ -25,6 +26,7 @@ def parseOp (t : String) : List Op :=
 def mkProg (desc : String) (K : Nat) : Prog :=
   let fs := ((desc.splitOn "/").map fun f => (f.splitOn ",").flatMap parseOp).toArray
   { body := fun f => fs.getD f [], K := K,
+    savesPanic := Gen.RunFields.savesPanic,
     U := { rounds := Gen.ExecLoop.fast.rounds, chain := Gen.ExecLoop.fast.chain, spin := Gen.ExecLoop.fast.spin } }
 
 def optS (o : Option Nat) : String := match o with | none => "n" | some _ => "x"
